@@ -60,19 +60,97 @@ func pickPark(t *rapid.T, pts []Inject, label string) *Inject {
 	if len(pts) == 0 {
 		return nil
 	}
+	// half of the time aim at the window before the lock is taken (everything a command
+	// reads there may be stale by the time it holds the lock)
+	if pct(t, 45, label+".prelock") {
+		for i, p := range pts {
+			if p.Syscall == "flock" && i > 0 {
+				q := pts[uni(t, i, label+".pre")]
+				return &q
+			}
+		}
+	}
 	p := pts[uni(t, len(pts), label)]
 	return &p
 }
 
+// genClaimRace draws claims plus disturbers that change which task is the oldest ready
+// one: reopening or unblocking an older task, finishing / blocking / moving the current
+// head, finishing a dependency, creating a task.
+func genClaimRace(t *rapid.T, w *World, pre *Snapshot, n int) []Op {
+	g := refGen{t, w, pre}
+	var ops []Op
+	epics := g.ids(func(it *Item) bool { return it.IsEpic })
+	tasks := g.ids(func(it *Item) bool { return !it.IsEpic })
+	claims := 0
+	for i := 0; i < n; i++ {
+		op := Op{N: 1000 + i}
+		if pct(t, 62, "race.claim") || (i == n-1 && claims == 0) || len(tasks) == 0 {
+			op.Kind, op.Agent = "claim", oneOf(t, agents, "agent")
+			if len(epics) > 0 && pct(t, 30, "race.epic") {
+				r := g.ref(oneOf(t, epics, "epicref"))
+				op.EpicFilter = &r
+			}
+			claims++
+			ops = append(ops, op)
+			continue
+		}
+		id := oneOf(t, tasks, "race.target")
+		// prefer a finished / blocked task that is older than some ready task: reopening it
+		// changes the head of the queue
+		if groups := ReadyInOrder(pre, ""); len(groups) > 0 && pct(t, 60, "race.older") {
+			youngest := pre.Items[groups[len(groups)-1][0]].CreatedAt
+			var older []string
+			for _, x := range tasks {
+				xi := pre.Items[x]
+				if (finished(xi.State) || (xi.State == "blocked" && xi.ClaimedBy == "")) && timeLess(xi.CreatedAt, youngest) {
+					older = append(older, x)
+				}
+			}
+			if len(older) > 0 {
+				id = oneOf(t, older, "race.older.which")
+			}
+		}
+		it := pre.Items[id]
+		r := g.ref(id)
+		op.Kind, op.Mode, op.Target, op.Agent = "set", "json", &r, oneOf(t, agents, "agent")
+		var allowed []string
+		for _, s := range []string{"todo", "done", "blocked", "canceled"} {
+			if transitionTable[it.State][s] {
+				allowed = append(allowed, s)
+			}
+		}
+		switch {
+		case len(allowed) > 0 && pct(t, 70, "race.state"):
+			st := oneOf(t, allowed, "state")
+			if (it.State == "done" || it.State == "canceled" || it.State == "blocked") && pct(t, 70, "race.reopen") {
+				st = "todo"
+			}
+			op.State = &st
+		case len(epics) > 0:
+			e := Lit("")
+			if pct(t, 70, "race.move") {
+				e = g.ref(oneOf(t, epics, "moveto"))
+			}
+			op.Epic = &e
+		default:
+			op = Op{N: 1000 + i, Kind: "new_task", Mode: "json", Title: sp(w.UniqueTitle("racer"))}
+		}
+		ops = append(ops, op)
+	}
+	return ops
+}
+
 type schedSpec struct {
-	prop  string
-	test  string
-	rule  string
-	kinds map[string]int // op kinds of the concurrent commands
-	minN  int
-	maxN  int
-	setup Profile
-	extra func(pre, final *Snapshot, cmds []ConcCmd) []string
+	genOps func(t *rapid.T, w *World, pre *Snapshot, n int) []Op
+	prop   string
+	test   string
+	rule   string
+	kinds  map[string]int // op kinds of the concurrent commands
+	minN   int
+	maxN   int
+	setup  Profile
+	extra  func(pre, final *Snapshot, cmds []ConcCmd) []string
 }
 
 func overlapping(cmds []ConcCmd) bool {
@@ -199,7 +277,12 @@ func runSchedTest(t *testing.T, sp schedSpec) {
 			stats.Label("lock_file_missing_at_start")
 		}
 		n := between(rt, sp.minN, sp.maxN, "conc.n")
-		ops := genConcOps(rt, w, pre, sp.kinds, n)
+		var ops []Op
+		if sp.genOps != nil {
+			ops = sp.genOps(rt, w, pre, n)
+		} else {
+			ops = genConcOps(rt, w, pre, sp.kinds, n)
+		}
 		cmds := make([]ConcCmd, n)
 		free := pct(rt, 25, "free")
 		var actions []SchedAction
@@ -271,18 +354,23 @@ func runSchedTest(t *testing.T, sp schedSpec) {
 }
 
 var claimSetup = Profile{Name: "claim-setup", Weights: map[string]int{"new_task": 40, "new_epic": 8, "set": 18, "sequence": 14, "plan": 5, "prune_yes": 2, "claim": 3},
-	BadRef: 0, Spoil: 0, Results: 0, EpicPct: 45, StatePool: []string{"todo", "todo", "done", "blocked", "canceled"}, StatePct: 25, ClaimPct: -1}
+	BadRef: 0, Spoil: 0, Results: 0, EpicPct: 45, StatePool: []string{"todo", "done", "done", "blocked", "canceled"}, StatePct: 40, ClaimPct: -1}
 
 func TestC01(t *testing.T) {
 	runSchedTest(t, schedSpec{
 		prop: "C01", test: "TestC01",
-		rule:  "a generated store (short random history) and 2-4 concurrent `claim` commands (with / without --epic), each optionally parked by the controller right after a drawn system call on the store's files (strace SIGSTOP injection) and resumed at a drawn later moment, or all free-running; oracle: some serial order consistent with real time in which every successful claim returns the model's oldest ready task at that position and the final state matches, lock-busy claims contribute nothing, no id is handed out twice; non-trivial = executions overlap and at least one park landed (or free-running); distinct = (commands, park points, controller schedule)",
-		kinds: map[string]int{"claim": 100}, minN: 2, maxN: 4, setup: claimSetup,
+		rule:   "a generated store (short random history) and 2-4 concurrent commands - mostly `claim` (with / without --epic) plus disturbers that reopen, finish, move or create tasks (`set`, `new task`, `prune --yes`) -, each optionally parked by the controller right after a drawn system call on the store's files (strace SIGSTOP injection) and resumed at a drawn later moment, or all free-running; oracle: some serial order consistent with real time in which every successful claim returns the model's oldest ready task at that position and the final state matches, lock-busy claims contribute nothing, no id is handed out twice; non-trivial = executions overlap and at least one park landed (or free-running); distinct = (commands, park points, controller schedule)",
+		genOps: genClaimRace, minN: 2, maxN: 4, setup: claimSetup,
 		extra: func(pre, final *Snapshot, cmds []ConcCmd) []string {
 			var out []string
 			seen := map[string]int{}
+			for _, c := range cmds {
+				if c.Op.Kind != "claim" && c.ok() {
+					return nil // with disturbers the serial-order oracle alone decides
+				}
+			}
 			for i, c := range cmds {
-				if !c.ok() || c.reply == nil || asString(c.reply["status"]) == "no_ready" {
+				if c.Op.Kind != "claim" || !c.ok() || c.reply == nil || asString(c.reply["status"]) == "no_ready" {
 					continue
 				}
 				id := asString(c.reply["id"])
